@@ -432,11 +432,17 @@ templ leaf(s string) {
 }
 
 templ slot(s string) {
-	<s data-id={ s }>{ children... }</s>
+	<section data-id={ s }>
+		{ children... }
+	</section>
 }
 
 templ twice(s string) {
-	<u data-id={ s }>{ children... }|{ children... }</u>
+	<article data-id={ s }>
+		{ children... }
+		|
+		{ children... }
+	</article>
 }
 
 templ noslot(s string) {
@@ -626,9 +632,9 @@ func (ip *Interp) node(n Node, children func() string) string {
 		case "leaf":
 			return q("<i>" + arg + "</i>")
 		case "slot":
-			return q(SerializeTag("s", attr, nil)) + blk() + q("</s>")
+			return q(SerializeTag("section", attr, nil)) + reAny + blk() + reAny + q("</section>")
 		case "twice":
-			return q(SerializeTag("u", attr, nil)) + blk() + q("|") + blk() + q("</u>")
+			return q(SerializeTag("article", attr, nil)) + blk() + reAny + q("|") + reAny + blk() + q("</article>")
 		case "noslot":
 			return q(SerializeTag("q", attr, nil)) + q("</q>")
 		}
